@@ -256,7 +256,7 @@ def run(prop, argv):
             _t3 = _t.time()
             # (run-time loss of local level-0 files - corelib.daemon_cases(loss=True) - is NOT part of any registered check: see DESIGN.md section 0)
             dcases = corelib.daemon_cases(seed + {"C01": 1, "C02": 2, "C04": 4, "C14": 14}[prop], 10 if tier == "quick" else 120, first_id=len(cases),
-                                          faults="none", loss=False)
+                                          faults="none", loss=False, store_ops=(tier == "thorough"))
             corelib.daemon_run(rep, binary, wd, dcases, prop)
             rep.cov["traces_validated_against_impl"] += len(dcases)
             rep.cov["phase_s"]["daemon_mode"] = round(_t.time() - _t3, 1)
